@@ -1,6 +1,7 @@
 """C13 - start-up survives damaged persistence files."""
 import glob
 import json
+import logging
 import os
 
 from hypothesis import strategies as st
@@ -75,11 +76,25 @@ def damage_variants(data, sampled):
 SHAPES = ("abs", "bare", "dot", "sub", "bakdir", "dotdir")
 
 
-def one_load(version, tmp, ext, main_bytes, bak_bytes, expect, stats, case, label, api, shape="abs"):
+class _Formatting(logging.Handler):
+    """What an application's log handler does with every record: format it."""
+
+    def emit(self, record):
+        record.getMessage()
+
+
+def one_load(version, tmp, ext, main_bytes, bak_bytes, expect, stats, case, label, api, shape="abs", verbose=False):
     """`shape`: how the application names the file - absolute, bare name / ./name relative to the working
-    directory, or below a sub-directory of the working directory."""
+    directory, or below a sub-directory of the working directory.
+    `verbose`: the application has switched the library's logging to DEBUG (as the shipped example does)."""
     cwd = os.getcwd()
+    logger = logging.getLogger("mysensors")
+    level, handler = logger.level, _Formatting()
     try:
+        if verbose:
+            logger.setLevel(logging.DEBUG)
+            logger.addHandler(handler)
+            logging.disable(logging.NOTSET)  # the harness keeps the library quiet otherwise (vf.common.setup_path)
         if shape in ("bare", "dot"):
             os.chdir(tmp)
             given = f"net.{ext}" if shape == "bare" else f"./net.{ext}"
@@ -93,9 +108,13 @@ def one_load(version, tmp, ext, main_bytes, bak_bytes, expect, stats, case, labe
             given = os.path.join(sub, f"net.{ext}")
         else:
             given = os.path.join(tmp, f"net.{ext}")
-        return _one_load(version, tmp, ext, main_bytes, bak_bytes, expect, stats, case, f"{label}, path {shape}", api, given)
+        return _one_load(version, tmp, ext, main_bytes, bak_bytes, expect, stats, case, f"{label}, path {shape}{' with DEBUG logging' if verbose else ''}", api, given)
     finally:
         os.chdir(cwd)
+        if verbose:
+            logging.disable(logging.CRITICAL)
+        logger.setLevel(level)
+        logger.removeHandler(handler)
 
 
 def _one_load(version, tmp, ext, main_bytes, bak_bytes, expect, stats, case, label, api, given):
@@ -264,7 +283,7 @@ def check_case(case, stats=None, only=None, part=(0, 1), collect=None):
                 expect = s_bak if blab == "intact" else empty
                 api = "start_persistence" if count % 5 == 0 else ("async_start_persistence" if count % 7 == 3 else "safe_load_sensors")
                 count += 1
-                guarded(version, tmp, ext, mdata, bdata, expect, stats, case, label, api, SHAPES[(idx + bi) % len(SHAPES)])
+                guarded(version, tmp, ext, mdata, bdata, expect, stats, case, label, api, SHAPES[(idx + bi) % len(SHAPES)], (idx + 2 * bi) % 3 == 0)
                 if stats is not None:
                     inside = mlab == "zerofill" or (mlab.startswith("trunc@") and 0 < int(mlab[6:]) < len(main_data))
                     nt = inside and blab != "absent"
